@@ -204,6 +204,8 @@ def search_stream(ctx, valid, n):
             stream += data[:200]
         if rng.random() < 0.5:
             stream += [-rng.choice([3000, 20000, 100000])]
+        if len(stream) < 2:
+            stream = stream + [-3000, 500]
         ops = c13.ops_for(stream, c13.chunkings(stream, rng, 1)[-1], rng, 'random')
         got = c13.run_ops(d, set(d.names), rng.choice([0, 38000]), ops)
         ctx.count_eval(key=('stream', tuple(stream[:12]), len(stream)))
